@@ -445,13 +445,19 @@ func TestVerifC12TCP(t *testing.T) {
 	_, blk, _ := net.ParseCIDR("10.0.0.0/8")
 	rules := []rule{{"allow=ip:10.0.0.0/8", blk.Contains}, {"deny=ip:10.0.0.0/8", func(ip net.IP) bool { return !blk.Contains(ip) }}, {"allow=ip:10.0.0.0/33", func(net.IP) bool { return false }}, {"", func(net.IP) bool { return true }}}
 	peers := []*net.TCPAddr{{IP: net.ParseIP("10.1.2.3"), Port: 1}, {IP: net.ParseIP("11.0.0.1"), Port: 1}, {IP: net.ParseIP("fe80::1"), Port: 1, Zone: "eth0"}}
-	for _, kind := range []string{"tcp", "sni", "dynamic"} {
+	for _, kind := range []string{"tcp", "sni", "dynamic", "dynamic/route-by-address"} {
 		for _, r := range rules {
 			for _, peer := range peers {
+				// the key the proxy has to ask for: a lookup function that answers every key would hide a
+				// listener that finds its route through a fallback key and skips a step on that path
 				src := ":1234"
 				if kind == "sni" {
 					src = "sni.example/"
 				}
+				if kind == "dynamic/route-by-address" {
+					src = "10.0.0.1:1234"
+				}
+				regKey := strings.TrimSuffix(src, "/")
 				opts := "proto=tcp"
 				if r.opt != "" {
 					opts += " " + r.opt
@@ -464,7 +470,12 @@ func TestVerifC12TCP(t *testing.T) {
 				for _, rs := range tb {
 					target = rs[0].Targets[0]
 				}
-				lookup := func(string) *route.Target { return target }
+				lookup := func(k string) *route.Target {
+					if k != regKey {
+						return nil
+					}
+					return target
+				}
 				admitted := r.admit(peer.IP)
 				var env *vnet.Env
 				var in, client *vnet.Conn
@@ -480,7 +491,7 @@ func TestVerifC12TCP(t *testing.T) {
 						serve = (&Proxy{Lookup: lookup}).ServeTCP
 					case "sni":
 						serve = (&SNIProxy{Lookup: lookup}).ServeTCP
-					case "dynamic":
+					case "dynamic", "dynamic/route-by-address":
 						serve = (&DynamicProxy{Lookup: lookup}).ServeTCP
 					}
 					x.Go("proxy", func() { serve(in) })
